@@ -79,12 +79,13 @@ FILES = {
     "a.png": _mk("a.png", 3, (6, 6), "RGBA", "PNG"),
     "a.webp": _mk("a.webp", 4, (6, 6), "RGBA", "WEBP"),
     "r.webp": _mk("r.webp", 2, (3, 4), "RGB", "WEBP"),
+    "r.png": _mk("r.png", 2, (3, 4), "RGB", "PNG"),  # APNG: Pillow keeps the file open until close()
     "s_rgba.png": _mk("s_rgba.png", 1, (6, 6), "RGBA", "PNG"),
     "s_rgb.png": _mk("s_rgb.png", 1, (3, 4), "RGB", "PNG"),
     "s_l.png": _mk("s_l.png", 1, (6, 6), "L", "PNG"),
     "s_big.png": _mk("s_big.png", 1, (60, 40), "RGB", "PNG"),
 }
-ANIM = ["a.gif", "b.gif", "c.gif", "a.png", "a.webp", "r.webp"]
+ANIM = ["a.gif", "b.gif", "c.gif", "a.png", "a.webp", "r.webp", "r.png"]
 STILL = ["s_rgba.png", "s_rgb.png", "s_l.png", "s_big.png"]
 for _n in ("/repo/tests/images/lion.gif", "/repo/tests/images/anim.webp"):
     if os.path.exists(_n):
@@ -271,11 +272,13 @@ def exc_name(e):
 
 class Obs:
     """what the oracle needs about one run of the real code"""
-    __slots__ = ("fd_delta", "fd_delta_after_drop", "live", "source_ok", "size_ok", "temp_ok", "frames_ok", "note")
+    __slots__ = ("fd_delta", "fd_delta_after_drop", "live", "source_ok", "size_ok", "temp_ok", "frames_ok", "note",
+                 "unclosed")
 
     def __init__(self):
         self.fd_delta = self.fd_delta_after_drop = 0
         self.live = []
+        self.unclosed = []
         self.source_ok = self.size_ok = self.temp_ok = self.frames_ok = True
         self.note = ""
 
@@ -409,6 +412,13 @@ class C11(Property):
                 ops = ["n"] * 7
                 yield self.iter_case(style, "a.gif", "file", "float", m, 2, True, False, 5, 0, 0, ops, "iter-fixed")
         yield self.iter_case("iterm2", "b.gif", "pil", "none", "A", 1, False, False, 5, 0, 0, ["n"] * 3, "iter-fixed")
+        for style, method in (("kitty", "L"), ("kitty", "W"), ("iterm2", "W"), ("iterm2", "L"), ("block", "")):
+            for alpha, fname in (("none", "r.png"), ("float", "r.png"), ("none", "b.gif"), ("float", "r.webp")):
+                c = self.res_case(dict(op="fmt", style=style, fname=fname, src="file", alpha=alpha, method=method,
+                                       width=3, dyn=False, closed=False, seek0=1, size_ok=True, fault=None), None, None)
+                if c is not None:
+                    c.kind = "res-fmt-asis"
+                    yield c
 
     def gen_iter(self, rng):
         style = rng.choice(["block", "block", "kitty", "iterm2"])
@@ -595,7 +605,7 @@ class C11(Property):
         d = case.data
         style, fname, spec = d["style"], d["fname"], d["spec"]
         nf = NFRAMES[fname]
-        obs = self.obs[case.key()] = Obs()
+        obs = self.obs[id(case)] = Obs()
         R.quiesce()
         base = R.fd_count()
         image, pimg = make_image(style, fname, d["src"])
@@ -694,7 +704,7 @@ class C11(Property):
     # .. one operation under a fault plan ..
     def impl_res(self, case):
         d = case.data
-        obs = self.obs[case.key()] = Obs()
+        obs = self.obs[id(case)] = Obs()
         op = d["op"]
         R.quiesce()
         tmp_before = set(os.listdir(common._TEMP_DIR))
@@ -813,6 +823,16 @@ class C11(Property):
                 env.set_env(term_size=(80, 30))
         finally:
             rec.on = False
+        # the operation has returned (or raised); nothing has been dropped or collected by the harness yet:
+        # which images did the library open, never close, and leave (or let be collected) with the file open?
+        if exc == "-" and d["fault"] is None:
+            opens = [e.split()[1] for e in rec.events if e.startswith("open o")]
+            allowed = set()
+            if op == "draw":
+                allowed = set(opens[1:2])   # the image `ImageIterator.__init__` opens inside `_display_animated`
+            elif op == "iter" and d["nframes"] == 0 and d["ending"] != "exhaust":
+                allowed = set(opens)        # a never-started iterator never learns about its image
+            obs.unclosed = [x for x in rec.open_unclosed() if x not in allowed]
         size = size_token(image, fixed, dyn_member)
         if size == "changed":
             obs.size_ok = False
@@ -875,7 +895,7 @@ class C11(Property):
                                "an iterm2 native-animation request that cannot be native (frame of an iteration, or a "
                                f"still image) is not rendered as the WHOLE method renders it ({d['fname']}, width {d['w']})")
             return None
-        obs = self.obs.get(case.key())
+        obs = self.obs.get(id(case))
         if obs is None:
             return None
         where = self.where(d, op)
@@ -884,6 +904,10 @@ class C11(Property):
         if obs.fd_delta > 0 or obs.live:
             return Failure(f"fd-leak/{where}", f"{obs.fd_delta} descriptor(s) above the baseline, live handles {obs.live} "
                            "after the operation ended and every closed/abandoned object was dropped")
+        if obs.unclosed:
+            return Failure(f"unclosed-open/{where}", f"image(s) {obs.unclosed} opened by the library from a multi-frame file "
+                           "were never closed: the file was still open when the operation returned / when the object "
+                           "was reclaimed by the garbage collector")
         if obs.fd_delta_after_drop > 0:
             return Failure(f"fd-leak-final/{where}", f"{obs.fd_delta_after_drop} descriptor(s) above the baseline at the end")
         if not obs.source_ok:
